@@ -309,3 +309,38 @@ func simplifySpecs(thorough bool) []composeSpec {
 	}
 	return specs
 }
+
+// doubleTriangleArea: |(b-a) x (c-a)| of the three indexed vertices, as an identity.
+func triangleAreaSpecs(thorough bool) []composeSpec {
+	type triCtx struct{ pts [][2]*fterm }
+	var cases []composeCase
+	for _, idx := range [][3]int{{0, 1, 2}, {1, 2, 3}, {0, 2, 3}} {
+		idx := idx
+		cases = append(cases, composeCase{fmt.Sprintf("vertices %d, %d, %d of a line of 4", idx[0], idx[1], idx[2]), func(it *Interp, s *State) ([]AV, interface{}) {
+			ln := it.buildGeom(s, pts("LineString", 4)).(SliceV)
+			ctx := &triCtx{}
+			for _, i := range idx {
+				ctx.pts = append(ctx.pts, pointTerms(it, membersOf(s, ln)[i]))
+			}
+			return []AV{ln, intOf(int64(idx[0])), intOf(int64(idx[1])), intOf(int64(idx[2]))}, ctx
+		}})
+	}
+	return []composeSpec{{
+		entry: "simplify.doubleTriangleArea", terms: true, cases: cases,
+		desc: "twice the area of the triangle of the three indexed vertices: the absolute value of (b-a) x (c-a)",
+		judge: func(it *Interp, cx interface{}, st *State) string {
+			ctx := cx.(*triCtx)
+			a, b, c := ctx.pts[0], ctx.pts[1], ctx.pts[2]
+			cross := termAdd(termMul(termAdd(b[0], a[0], -1), termAdd(c[1], a[1], -1)), termMul(termAdd(b[1], a[1], -1), termAdd(c[0], a[0], -1)), -1)
+			id, ok := atomOf(floatTerm(it, st.result[0]))
+			if !ok || it.atomFn[id] != "abs" {
+				return "the result is not an absolute value"
+			}
+			inner := it.absOf[id]
+			if !termEqual(inner, cross) && !termEqual(termAdd(termConst(0), inner, -1), cross) {
+				return "the result is not |(b-a) x (c-a)| of the three indexed vertices"
+			}
+			return ""
+		},
+	}}
+}
